@@ -836,6 +836,27 @@ def probe_variant(ctx, exe):
     return dict(rule=rule, dch=dch, follow=follow)
 
 
+def probe_cnt(ctx, exe, fallback):
+    """bp->cnt, the size of the receiver's write-coalescing buffer, measured on the real receiver: a file announced
+    with N+1 bytes of which only N arrive -- what has reached the disk when the input ends is the largest multiple of
+    bp->cnt below N.  (Not computed from st_blksize with a copy of _allocbuf's formula: a maintainer may change it.)"""
+    sizes = {}
+    for n in (2 ** 20 - 1, 3 * 2 ** 18 - 1):
+        j = os.path.join(ctx.scratch, "probe_jail")
+        shutil.rmtree(j, ignore_errors=True)
+        pcp.build_jail(j, jail_entries(False, 0o755))
+        c = C(b"C0644 %d pdshverif_cnt\n" % (n + 1) + b"x" * n, prepop=False)
+        run_batch([exe], [[op_line(j, c)]], env=dict(os.environ, ASAN_OPTIONS="detect_leaks=0"))
+        try:
+            sizes[n] = os.path.getsize(os.path.join(j, "o/w/dest/pdshverif_cnt"))
+        except OSError:
+            sizes[n] = None
+        shutil.rmtree(j, ignore_errors=True)
+    cands = [c_ for c_ in range(pcp.BUFSIZ, 2 ** 20 + 1, pcp.BUFSIZ)
+             if all(w is not None and (n // c_) * c_ == w for n, w in sizes.items())]
+    return cands[0] if cands else fallback
+
+
 def variant_text(var):
     return "names: %s; chmod after mkdir with -p: %s; symbolic links inside the destination: %s" % (
         ["no validation (code as found)", "`/` and `..` rejected", "scp rule"][var["rule"]], "yes" if var["dch"] else "no",
@@ -932,7 +953,7 @@ def run(ctx):
     distinct = set()
     if ok:
         blk = int(subprocess.run([exe, "--blksize", ctx.scratch], stdout=subprocess.PIPE).stdout.decode().strip() or 0)
-        cnt = ((blk + pcp.BUFSIZ - 1) // pcp.BUFSIZ) * pcp.BUFSIZ or pcp.BUFSIZ
+        cnt = probe_cnt(ctx, exe, ((blk + pcp.BUFSIZ - 1) // pcp.BUFSIZ) * pcp.BUFSIZ or pcp.BUFSIZ)
         var = probe_variant(ctx, exe)
         dist["receiver_variant"] = variant_text(var)
         dist["bp_cnt"] = cnt
